@@ -166,6 +166,12 @@ Proof.
   intros Hc. unfold claim_launchpad_tokens.
   destruct (require_stage e (st w) Claim) as [[]|k]; [|cbn; eauto]. cbn [bind]. rewrite Hc. cbn. eauto.
 Qed.
+Theorem claim_blacklisted_fails sf e w :
+  blacklisted (st w) (caller e) = true -> exists k, claim_launchpad_tokens sf e w = Err k.
+Proof.
+  intros Hb. destruct (claim_launchpad_tokens sf e w) as [w'|k] eqn:E; [|eauto].
+  apply gate_claim_not_blacklisted in E. congruence.
+Qed.
 Theorem claim_without_range_fails sf e w :
   range (st w) (caller e) = None -> exists k, claim_launchpad_tokens sf e w = Err k.
 Proof.
